@@ -369,6 +369,45 @@ func c07Expiry(r *ev.Run, caseID string, b time.Duration, kaShort bool) {
 	r.NonTrivial(fmt.Sprintf("expiry/ka%v", kaShort))
 }
 
+// c07IdleExpiry: the session dies of idleness (no authenticated traffic for longer than KeepAliveTimeout) long before the
+// rekey timer is due; the next Send, from either side, must bring a new session up within the usual bound.
+func c07IdleExpiry(r *ev.Run, caseID string, b time.Duration, who int, idleFactor int) {
+	tm := p2pke.VerifTimings{HandshakeBackoff: b, KeepAliveTimeout: 30 * b, RekeyAfterTime: 8 * time.Second, RejectAfterTime: 12 * time.Second}
+	n := newCnet(cendCfg{key: keyN(31), timings: tm}, cendCfg{key: keyN(32), timings: tm}, nil)
+	n.goPrompt()
+	defer n.close()
+	ctx, cancel := context.WithCancel(context.Background())
+	defer cancel()
+	sig, desc, inc := c07Wait(n, []<-chan error{n.sendAsync(ctx, 0, []byte("idle-0-"+caseID))}, b, true)
+	r.Eval(1)
+	if inc || sig != "" {
+		if sig != "" {
+			r.Violate(sig+"/idle-expiry-setup", caseID, desc, map[string]any{"messages": n.describeLog(40)})
+		} else {
+			r.Inconclusive("c07 idle expiry setup " + caseID)
+		}
+		return
+	}
+	time.Sleep(time.Duration(idleFactor) * tm.KeepAliveTimeout / 10)
+	n.mu.Lock()
+	n.retrans = 0
+	n.mu.Unlock()
+	sig, desc, inc = c07Wait(n, []<-chan error{n.sendAsync(ctx, who, []byte("idle-1-"+caseID))}, b, true)
+	if inc {
+		r.Inconclusive("c07 idle expiry " + caseID)
+		return
+	}
+	if sig != "" {
+		side := "initiator"
+		if who == 1 {
+			side = "responder"
+		}
+		r.Violate(sig+"/after-idle-expiry/"+side, caseID, desc, map[string]any{"idle_ms": (time.Duration(idleFactor) * tm.KeepAliveTimeout / 10).Milliseconds(), "keepalive_ms": tm.KeepAliveTimeout.Milliseconds(), "rekey_ms": tm.RekeyAfterTime.Milliseconds(), "messages": n.describeLog(60)})
+		return
+	}
+	r.NonTrivial(fmt.Sprintf("idle-expiry/who%d/idle%d", who, idleFactor))
+}
+
 // c07Overtake: every RespDone is lost (or the first few are), so the initiator learns of completion from the responder's
 // application data. The initiator's pending Send must then complete.
 func c07Overtake(r *ev.Run, caseID string, b time.Duration, dropFirst int) {
@@ -446,7 +485,7 @@ func c07Scripts(maxLen int) []string {
 }
 
 func runC07(r *ev.Run) {
-	r.Rule = "two real Channels whose Send callbacks feed the harness; phase 1 applies a script over the first k emitted messages (every string over {deliver, drop, duplicate, hold-and-swap} up to length k), crossed with the timing of the two sides' first Send and a restart of the peer after message j; phase 2 delivers promptly. Logical clock = handshake retransmissions since phase 2 began: a Send pending after K=10 of them, or pending while the network is quiet with no handshake timer armed, is a violation; then traffic must flow both ways. Rotation: steady two-way traffic over 6 rekey periods (no Send may stall, no plaintext twice, handshakes started ~ once per rekey whatever KeepAlive is). Expiry: silence longer than RejectAfter, then a Send. non-trivial = script perturbed a message / both initiated / restart; distinct = (script, timing, restart point, keep-alive class)"
+	r.Rule = "two real Channels whose Send callbacks feed the harness; phase 1 applies a script over the first k emitted messages (every string over {deliver, drop, duplicate, hold-and-swap} up to length k), crossed with the timing of the two sides' first Send and a restart of the peer after message j; phase 2 delivers promptly. Logical clock = handshake retransmissions since phase 2 began: a Send pending after K=10 of them, or pending while the network is quiet with no handshake timer armed, is a violation; then traffic must flow both ways. Rotation: steady two-way traffic over 6 rekey periods (no Send may stall, no plaintext twice, handshakes started ~ once per rekey whatever KeepAlive is). Expiry: silence longer than RejectAfter, then a Send; idle expiry: silence of 0.9..3.5 KeepAliveTimeouts with the rekey timer far away, then a Send from the earlier initiator or responder. non-trivial = script perturbed a message / both initiated / restart; distinct = (script, timing, restart point, keep-alive class)"
 	r.Assumptions = []string{"K=10 retransmission rounds is the 'small bounded number' of the property; timers are real (5-20 ms backoff), verdicts are on retransmission counts and quiescence, the wall-clock watchdog only yields 'inconclusive'"}
 	scripts := c07Scripts(pick(r, 4, 5))
 	timings := []string{"A", "B", "both", "BafterA"}
@@ -527,6 +566,18 @@ func runC07(r *ev.Run) {
 				defer wg.Done()
 				c07Rotation(r, fg, id, ka, 10*time.Millisecond)
 			}()
+			for who := 0; who < 2; who++ {
+				who := who
+				idle := []int{12, 20, 9, 35}[(i+r.Batch)%4] // tenths of KeepAliveTimeout
+				id3 := fmt.Sprintf("idle-%d-%d-ka%v-who%d", r.Batch, i, ka, who)
+				if ka && r.Want(id3) {
+					wg.Add(1)
+					go func() {
+						defer wg.Done()
+						c07IdleExpiry(r, id3, 10*time.Millisecond, who, idle)
+					}()
+				}
+			}
 			id2 := fmt.Sprintf("exp-%d-%d-ka%v", r.Batch, i, ka)
 			if r.Want(id2) {
 				wg.Add(1)
